@@ -855,9 +855,19 @@ def wl_messages(ctx, rng, idx, n):
     # getdata
     for cnt in [0, 1, 2, 3] + ([0xFC, 0xFD, 300] if idx % 4 == 0 else []) + [rng.randrange(0, 12) for _ in range(reps // 3)]:
         g = nw.GetDataMessage()
+        mine = []
         for _ in range(cnt):
-            g.add_data(rng.choice([1, 2, 3, 4, nw.WITNESS_TX_DATA_TYPE, nw.WITNESS_BLOCK_DATA_TYPE, 0, 2**32 - 1, rng.getrandbits(32)]), h32(rng))
-        outcome(g.serialize)
+            item = (rng.choice([1, 2, 3, 4, nw.WITNESS_TX_DATA_TYPE, nw.WITNESS_BLOCK_DATA_TYPE, 0, 2**32 - 1, rng.getrandbits(32)]), h32(rng))
+            mine.append(item)
+            g.add_data(*item)
+        so = outcome(g.serialize)
+        # a freshly constructed message carries exactly what was added to IT (nothing left over from the
+        # messages built before it in this process)
+        ctx.monitor("getdata-fresh-object")
+        ctx.count("reuse:getdata-messages-built-in-sequence")
+        exp = p2p.compact_size(len(mine)) + b"".join(t.to_bytes(4, "little") + h[::-1] for t, h in mine)
+        if so[0] == "ok" and so[1] != exp:
+            _viol(ctx, "getdata-carries-items-of-another-message", f"{cnt} items added to a new GetDataMessage, serialisation holds other data", {"op": "getdata-seq", "count": cnt})
     # ping / pong
     for r in range(reps):
         nonce = rng.choice([bytes(8), b"\xff" * 8, rng.getrandbits(64).to_bytes(8, "big")])
